@@ -484,9 +484,7 @@ func scenC14(c *ctx) {
 							if c.quick() && c.rng.Intn(40) != 0 {
 								continue
 							}
-							if !c.quick() && c.rng.Intn(4) != 0 {
-								continue
-							}
+							// thorough: the complete grid (250 880 configurations)
 							cf := subsetCfg(mask)
 							cf.Chal, cf.PH, cf.Digits, cf.Hash, cf.TS, cf.Raw = ch, ph, d, h, ts, S("s")
 							c.rec.Emit(doSuiteValidate(fmt.Sprintf("C14/suite/m%d/ch%d/ph%d/d%d/h%d/ts%d", mask, ch, ph, d, h, ts), cf, n%3))
@@ -506,9 +504,7 @@ func scenC14(c *ctx) {
 				if c.quick() && c.rng.Intn(18) != 0 {
 					continue
 				}
-				if !c.quick() && c.rng.Intn(3) != 0 {
-					continue
-				}
+				// thorough: every (subset, format, password hash) class, every field, every length 0..140
 				cf := subsetCfg(mask)
 				cf.Chal, cf.PH, cf.Digits, cf.Hash, cf.Raw = ch, ph, 6, c.rng.Intn(3), S("s")
 				if cf.T {
